@@ -448,7 +448,7 @@ func gen(seed uint64, tier string) {
 	r := vproto.NewRng(seed)
 	nBase, maxOrbit, nMulti, nLine, nBuf := 220, 24, 90, 900, 150
 	if tier == "thorough" {
-		nBase, maxOrbit, nMulti, nLine, nBuf = 2500, 300, 900, 20000, 2500
+		nBase, maxOrbit, nMulti, nLine, nBuf = 1200, 64, 500, 15000, 2500
 	}
 	G := func(g geom.Geom) string { return vproto.GeomToks(g) }
 
